@@ -18,7 +18,7 @@ outbound lookups filter on !expired; (d) the reporter drops subscriptions whose 
 process_subscriptions' removal predicate the `fabric removed` verdict is reached on the None edge of
 fabrics.get(sub.fab_idx) on every pass (not only on a wake-up reason).
 """
-CLAUSES = ['a: every fabric-removal path purges sessions and resumption records and spares the sessions of other fabrics', 'b: removal is broadcast to the handlers',
+CLAUSES = ['a: every fabric-removal path purges sessions and resumption records (complete removal scan) and spares the sessions of other fabrics', 'b: removal is broadcast to the handlers',
            'c: expired sessions refuse new exchanges', 'd: subscriptions of a missing fabric are dropped']
 NOT_DECIDED = ['the history-level claim (which credentials still work after which sequence)', 'ACL / group-key removal inside Fabric (dropped with the Fabric value itself)']
 MIN_OBLIGATIONS = {'q': 18, 'd': 14, 'r': 14}
